@@ -249,6 +249,23 @@ Theorem C15_coupling_logdet : forall (n : nat) (mask : nat -> bool) (cond : cond
                                                (vec R n (fun i => if mask i then 0%R else 1%R)) cond x)).
 Proof. exact coupling_logdet. Qed.
 
+(* batch normalisation in evaluation mode (running variance + eps > 0): an element-wise map, diagonal Jacobian *)
+Theorem C15_bn_logdet : forall (n : nat) (eps : R) (w b rvar rmean : list R),
+  (forall i, (i < n)%coq_nat -> Rlt (IZR 0) (Rplus (List.nth i rvar (IZR 0)) eps)) ->
+  forall (x : list R) (J : 'M[R_comRingType]_n), length x = n ->
+  (forall i j : 'I_n, is_derive (partial (bn_map n eps w b rvar rmean) x i j) (List.nth j x 0%R) (J i j)) ->
+  (\det J)%R = exp (snd (Rbn_bwd n eps w b rvar rmean x)).
+Proof. exact bn_logdet. Qed.
+
+(* logit preprocessing, alpha in (0, 1/2), data in the unit cube; the reported ildj includes the registered constant
+   -dims*log(1 - 2 alpha) *)
+Theorem C15_logit_logdet : forall (n : nat) (a : R), Rlt (IZR 0) a /\ Rlt a (Rdiv (IZR 1) (IZR 2)) ->
+  forall (x : list R) (J : 'M[R_comRingType]_n), length x = n ->
+  (forall i, (i < n)%coq_nat -> Rle (IZR 0) (List.nth i x (IZR 0)) /\ Rle (List.nth i x (IZR 0)) (IZR 1)) ->
+  (forall i j : 'I_n, is_derive (partial (logit_map n a) x i j) (List.nth j x 0%R) (J i j)) ->
+  (\det J)%R = exp (snd (Rlogit_bwd n a (Rlogit_ldjc n a) x)).
+Proof. exact logit_logdet. Qed.
+
 (* a flow is a composition: determinants multiply, the fixed permutations contribute +-1 *)
 Theorem C15_det_chain : forall (K : comRingType) n (A B : 'M[K]_n), (\det (A *m B) = \det A * \det B)%R.
 Proof. exact det_chain. Qed.
@@ -281,3 +298,5 @@ Print Assumptions C15_ar_logdet.
 Print Assumptions C15_coupling_logdet.
 Print Assumptions C15_det_chain.
 Print Assumptions C15_det_permutation.
+Print Assumptions C15_bn_logdet.
+Print Assumptions C15_logit_logdet.
